@@ -6,3 +6,25 @@ package s3err
 // GetAPIError is a lookup in a table that is written once at package initialisation.
 //@ func GetAPIError
 //@   pure
+
+// Error constructors build a value and touch nothing else (assumed frame conditions).
+//@ func GetInvalidChecksumHeaderErr
+//@   frame none
+//@ func GetInvalidTrailingChecksumHeaderErr
+//@   frame none
+//@ func GetChecksumTypeMismatchErr
+//@   frame none
+//@ func GetChecksumBadDigestErr
+//@   frame none
+//@ func GetChecksumSchemaMismatchErr
+//@   frame none
+//@ func GetChecksumTypeMismatchOnMpErr
+//@   frame none
+//@ func GetIncorrectMpObjectSizeErr
+//@   frame none
+//@ func GetInvalidMpObjectSizeErr
+//@   frame none
+//@ func CreateExceedingRangeErr
+//@   frame none
+//@ func GetAPIErrorResponse
+//@   frame none
